@@ -17,6 +17,8 @@ import contextlib
 import numpy as np
 
 KEY = lambda s: "1" + s  # noqa: E731
+# side channel of the last trace_* call: branch / operand-kind observations (for coverage histograms)
+LAST = {"merge_kinds": [], "cvo_branches": []}
 
 
 def _f(x):
@@ -133,10 +135,14 @@ def trace_merge(d):
 
     def w_angles(orig):
         def f(a1, a2):
+            # operand KINDS as the code's own isinstance test sees them (complex 'c' / real scalar 'f')
+            LAST["merge_kinds"].append(("c" if isinstance(a1, complex) else "f") + ("c" if isinstance(a2, complex) else "f"))
             r = orig(a1, a2)
             lines.append("ang ; " + " ".join(_f(x) for x in r))
             return r
         return f
+
+    LAST["merge_kinds"] = []
 
     with patched(cls, "_select_strings", w_select), \
             patched(cls, "_update_state_dict_according_to_operation", w_update, static=True), \
@@ -179,9 +185,18 @@ def trace_cvo(d, aux, method):
     def w_angles(orig):
         def f(feature, norm):
             r = orig(feature, norm)
+            # which data-dependent branches of _compute_matrix_angles this call took
+            if isinstance(feature, complex):
+                ph = abs(feature * feature)
+                LAST["cvo_branches"].append("complex" + (":imag<0" if feature.imag < 0 else ":imag>=0")
+                                            + (":norm-clamped" if (norm - ph) < 0 else ""))
+            else:
+                LAST["cvo_branches"].append("real")
             lines.append(f"load ; {_f(norm)} " + " ".join(_f(x) for x in r))
             return r
         return f
+
+    LAST["cvo_branches"] = []
 
     with patched(C, "_compute_matrix_angles", w_angles):
         gate = cls(dict(d), opt_params={"with_aux": aux, "mcg_method": method})
